@@ -410,6 +410,9 @@ func (t TransportLayerCC) Marshal() ([]byte, error) {
 	if err != nil {
 		return nil, err
 	}
+	if t.ReferenceTime >= 1<<24 {
+		return nil, errFieldOutOfRange
+	}
 
 	payload := make([]byte, t.MarshalSize()-headerLength)
 	binary.BigEndian.PutUint32(payload, t.SenderSSRC)
